@@ -288,7 +288,18 @@ func runFs() {
 						myFds = append(myFds, ofd{filesys.File(out.Fd), true})
 						myNames = append(myNames, name)
 					}
-					// … and, still in step, every client creates the SAME file name atomically in its own directory and reads it back
+					// … and, still in step, every client creates a name of its own: these calls all succeed, at the same time, and
+					// must hand out distinct descriptors
+					own := fmt.Sprintf("own%d-%d", c, j)
+					oo := do(fsIn{Op: "create", Dir: "d", Name: own}, func() fsOut {
+						f, ok := fs.Create("d", own)
+						return fsOut{Fd: int(f), Ok: ok}
+					})
+					if oo.Ok && !oo.Panic {
+						myFds = append(myFds, ofd{filesys.File(oo.Fd), true})
+						myNames = append(myNames, own)
+					}
+					// … and every client creates the SAME file name atomically in its own directory and reads it back
 					pc := fmt.Sprintf("pc%d", c)
 					data := fmt.Sprintf("<same %d.%d>", c, j)
 					do(fsIn{Op: "atomic", Dir: pc, Name: "same", Data: data}, func() fsOut {
